@@ -97,6 +97,7 @@ fn same_result(a: &Outcome, b: &Outcome) -> bool {
 }
 
 pub fn c08(ctx: &Ctx, rep: &mut Report) {
+    crate::unit::uf_unit(ctx, rep);
     rep.rule = "random histories of 2-12 *_with calls sharing one LinkageState/Dendrogram (sizes 0..60 growing/shrinking, all algorithms/methods, ~8% malformed shapes and ~5% NaN inputs that panic mid-call); each call compared with the model's `with` request, with a fresh-object call, and (histories run concurrently on all threads) with a second sequential run; non-trivial = every history (>= 2 calls); distinct by hash of the concatenated request lines".into();
     let mut rng = Rng::new(ctx.seed);
     let count = ((if ctx.thorough { 20000 } else { 1200 }) as f64 * ctx.scale) as usize;
